@@ -54,11 +54,66 @@ type Effects struct {
 	SSA   *ssa.Program
 	Funcs []*ssa.Function // library functions incl. closures, sorted by position
 	memo  map[*ssa.Function][]Root
+	// call-site index: a non-receiver parameter of an unexported function that is only ever
+	// called statically designates what its callers pass (an extracted helper is judged by its
+	// call sites)
+	sites   map[*ssa.Function][]ssa.CallInstruction
+	escaped map[*ssa.Function]bool
+	invoked map[string]bool
+}
+
+func (e *Effects) buildSites() {
+	e.sites = map[*ssa.Function][]ssa.CallInstruction{}
+	e.escaped = map[*ssa.Function]bool{}
+	e.invoked = map[string]bool{}
+	for fn := range ssautil.AllFunctions(e.SSA) {
+		for _, b := range fn.Blocks {
+			for _, in := range b.Instrs {
+				var calleeOp *ssa.Value
+				if ci, ok := in.(ssa.CallInstruction); ok {
+					com := ci.Common()
+					if com.IsInvoke() {
+						e.invoked[com.Method.Name()] = true
+					} else {
+						calleeOp = &com.Value
+						if callee := com.StaticCallee(); callee != nil {
+							e.sites[callee] = append(e.sites[callee], ci)
+						}
+					}
+				}
+				for _, op := range in.Operands(nil) {
+					if op == nil || *op == nil {
+						continue
+					}
+					if f, ok := (*op).(*ssa.Function); ok {
+						if calleeOp != nil && op == calleeOp {
+							continue
+						}
+						if calleeOp != nil && *op == *calleeOp && isCalleeOperand(in, op) {
+							continue
+						}
+						e.escaped[f] = true
+					}
+				}
+			}
+		}
+	}
+}
+
+// isCalleeOperand: op is the function position of the call instruction in.
+func isCalleeOperand(in ssa.Instruction, op *ssa.Value) bool {
+	ci, ok := in.(ssa.CallInstruction)
+	if !ok {
+		return false
+	}
+	ops := in.Operands(nil)
+	return len(ops) > 0 && ops[0] == op && *op == ci.Common().Value
 }
 
 func BuildEffects(p *core.Program) *Effects {
 	prog, _ := p.SSA()
 	e := &Effects{Prog: p, SSA: prog, memo: map[*ssa.Function][]Root{}}
+	e.buildSites()
 	for fn := range ssautil.AllFunctions(prog) {
 		if fn.Blocks == nil || fn.Synthetic != "" && !strings.HasPrefix(fn.Synthetic, "package init") {
 			if fn.Synthetic != "" {
@@ -133,6 +188,27 @@ func (e *Effects) roots(v ssa.Value, seen map[ssa.Value]bool, depth int) []Root 
 		fn := x.Parent()
 		if fn.Signature.Recv() != nil && len(fn.Params) > 0 && fn.Params[0] == x {
 			return []Root{{RootRecv, ""}}
+		}
+		if fn.Parent() == nil && !token.IsExported(fn.Name()) && !e.escaped[fn] && !e.invoked[fn.Name()] && len(e.sites[fn]) > 0 && depth < 12 {
+			idx := -1
+			for i, prm := range fn.Params {
+				if prm == x {
+					idx = i
+				}
+			}
+			var out []Root
+			ok := idx >= 0
+			for _, site := range e.sites[fn] {
+				args := site.Common().Args
+				if idx >= len(args) {
+					ok = false
+					break
+				}
+				out = append(out, e.roots(args[idx], seen, depth+1)...)
+			}
+			if ok {
+				return out
+			}
 		}
 		return []Root{{RootParam, fn.Name() + "." + x.Name()}}
 	case *ssa.FreeVar:
